@@ -10,7 +10,7 @@ from .common import FnCtx, fnctx, sctx, is_method_call, self_attr_stores
 from . import c04, c05
 
 PROP = "C19"
-FLOORS = {"C19.R1": 12, "C19.R2": 9, "C19.R3": 5, "C19.R4": 2, "C19.R5": 2, "C19.R6": 5, "C19.R7": 20, "C19.R8": 100, "C19.R9": 6}
+FLOORS = {"C19.R1": 12, "C19.R2": 9, "C19.R3": 5, "C19.R4": 2, "C19.R5": 2, "C19.R6": 5, "C19.R7": 20, "C19.R8": 100, "C19.R9": 6, "C19.R10": 20}
 META = {
     "explanation": "Both evaluators are the same MadxEval class; only the three containers differ. The grammar constant is read from the "
                    "AST and parsed with lark (no code of /repo runs): every rule alias has a callback in MadxEval (also after the "
@@ -60,7 +60,8 @@ def check(col: Collector):
         err = ""
     except Exception as e:  # grammar error / LALR conflict
         built, err, parser = False, f"{type(e).__name__}: {e}"[:300], None
-    col.add("C19.R4", "madxutils.calc_grammar#builds-as-LALR", built, m.rel, "the grammar builds as an LALR(1) parser without conflicts", err)
+    with col.rule():
+        col.add("C19.R4", "madxutils.calc_grammar#builds-as-LALR", built, m.rel, "the grammar builds as an LALR(1) parser without conflicts", err)
     if not built:
         return
     c, cbs = _callbacks(repo)
@@ -87,9 +88,10 @@ def check(col: Collector):
         ev, mm = repl[0]
         ok = mm["g"] == G and mm["a"] == (("const", repr("getitem")), ("const", repr("getattr"))) and \
             isx.under(ev.nid, ("cmp", "==", get_p, ("const", repr("attr")))) and len(isx.conds(ev.nid)) == 1
-    col.add("C19.R5", "MadxEval.__init__#attr-mode-replacement", ok, m.loc(init),
-            "only in get='attr' mode the alias getitem is replaced by getattr (and nothing else is rewritten)",
-            S.show(repl[0][0].term) if repl else "no replacement")
+    with col.rule():
+        col.add("C19.R5", "MadxEval.__init__#attr-mode-replacement", ok, m.loc(init),
+                "only in get='attr' mode the alias getitem is replaced by getattr (and nothing else is rewritten)",
+                S.show(repl[0][0].term) if repl else "no replacement")
     attr_text = text.replace("getitem", "getattr")
     try:
         p2 = lark.Lark(attr_text, parser="lalr")
@@ -97,8 +99,9 @@ def check(col: Collector):
         ok2 = all(a in cbs for a in al2) and "getattr" in al2 and text.count("getitem") == 1
     except Exception as e:
         ok2 = False
-    col.add("C19.R5", "MadxEval#attr-mode-aliases-have-callbacks", ok2, m.rel,
-            "after the replacement every alias still has a callback and exactly the element access production changed", "")
+    with col.rule():
+        col.add("C19.R5", "MadxEval#attr-mode-aliases-have-callbacks", ok2, m.rel,
+                "after the replacement every alias still has a callback and exactly the element access production changed", "")
     # Lark(...) built with parser='lalr', transformer=self; `eval` is that parser's parse, statelessly
     lk = isx.calls_some(("call", ("glob", "Lark"), S.V("a"), S.V("k")))
     okl = len(lk) == 1
@@ -107,8 +110,9 @@ def check(col: Collector):
         g0 = lk[0][1]["a"][0] if lk[0][1]["a"] else None
         okl = kws.get("transformer") == S.SELF and kws.get("parser") == ("const", repr("lalr")) and g0 is not None and \
             all(x == G or S.is_call_of(x, meth="replace") for x in S.alts(g0))
-    col.add("C19.R4", "MadxEval.__init__#lalr-with-inline-transformer", okl, m.loc(init),
-            "the evaluator is the LALR parser of calc_grammar with MadxEval itself as inline transformer", "")
+    with col.rule():
+        col.add("C19.R4", "MadxEval.__init__#lalr-with-inline-transformer", okl, m.loc(init),
+                "the evaluator is the LALR parser of calc_grammar with MadxEval itself as inline transformer", "")
     parse_of = lambda t: t[:1] == ("attr",) and t[2] == "parse" and S.is_call_of(t[1], ("glob", "Lark"))   # noqa: E731
     st = {}
     for ev in isx.of_kind("store"):
@@ -165,8 +169,9 @@ def check(col: Collector):
                 col.add("C19.R2", f"MadxEval.{al}#unary`{toks[0]}`", ok, m.loc(c.node),
                         f"unary `{toks[0]}` applies operator.{want} to an atom", str(got))
     got = cbs.get("number")
-    col.add("C19.R2", "MadxEval.number#float", got is not None and got[0] == "const" and got[1] == "float", m.loc(c.node),
-            "NUMBER tokens are converted with float", str(got))
+    with col.rule():
+        col.add("C19.R2", "MadxEval.number#float", got is not None and got[0] == "const" and got[1] == "float", m.loc(c.node),
+                "NUMBER tokens are converted with float", str(got))
     # callbacks
     def cb(name):
         if name not in c.methods:
@@ -180,14 +185,16 @@ def check(col: Collector):
     if ok:
         rets = [r for r in sx.of_kind("return")]
         ok = bool(rets) and all(r.value[:1] == ("sub",) and r.value[1] == S.sattr("variables") and r.value[2] in tok(sx.P(0)) for r in rets)
-    col.add("C19.R6", "MadxEval.var#variables[name]", ok, sx.loc(sx.fn) if sx else m.rel, "a name evaluates to variables[name]", "")
+    with col.rule():
+        col.add("C19.R6", "MadxEval.var#variables[name]", ok, sx.loc(sx.fn) if sx else m.rel, "a name evaluates to variables[name]", "")
     sx = cb("getitem")
     ok = sx is not None
     if ok:
         rets = sx.of_kind("return")
         ok = bool(rets) and all(r.value[:1] == ("sub",) and r.value[1][:1] == ("sub",) and r.value[1][1] == S.sattr("elements")
                                 and r.value[1][2] in tok(sx.P(0)) and r.value[2] in tok(sx.P(1)) for r in rets)
-    col.add("C19.R6", "MadxEval.getitem#elements[name][key]", ok, sx.loc(sx.fn) if sx else m.rel, "`name->key` evaluates to elements[name][key]", "")
+    with col.rule():
+        col.add("C19.R6", "MadxEval.getitem#elements[name][key]", ok, sx.loc(sx.fn) if sx else m.rel, "`name->key` evaluates to elements[name][key]", "")
     sx = cb("getattr")
     ok = sx is not None
     if ok:
@@ -195,8 +202,9 @@ def check(col: Collector):
         ok = bool(rets) and all(S.is_call_of(r.value, ("glob", "getattr")) and len(r.value[2]) == 2 and r.value[2][0][:1] == ("sub",)
                                 and r.value[2][0][1] == S.sattr("elements") and r.value[2][0][2] in tok(sx.P(0)) and r.value[2][1] in tok(sx.P(1))
                                 for r in rets)
-    col.add("C19.R6", "MadxEval.getattr#getattr(elements[name],key)", ok, sx.loc(sx.fn) if sx else m.rel,
-            "`name->key` in attr mode evaluates to getattr(elements[name], key)", "")
+    with col.rule():
+        col.add("C19.R6", "MadxEval.getattr#getattr(elements[name],key)", ok, sx.loc(sx.fn) if sx else m.rel,
+                "`name->key` in attr mode evaluates to getattr(elements[name], key)", "")
     sx = cb("call")
     ok = sx is not None
     if ok:
@@ -205,13 +213,15 @@ def check(col: Collector):
         ok = len(ps) == 2 and ps[1][2].startswith("*") and bool(rets) and all(
             S.is_call_of(r.value) and S.is_call_of(r.value[1], ("glob", "getattr")) and r.value[1][2][:2] == (S.sattr("functions"), ps[0])[:2]
             and r.value[1][2][1] in tok(ps[0]) and r.value[2] == (("uop", "*", ps[1]),) and not r.value[3] for r in rets)
-    col.add("C19.R6", "MadxEval.call#getattr(functions,name)(*args)", ok, sx.loc(sx.fn) if sx else m.rel,
-            "a call evaluates to getattr(functions, name)(*args) with all arguments in order", "")
+    with col.rule():
+        col.add("C19.R6", "MadxEval.call#getattr(functions,name)(*args)", ok, sx.loc(sx.fn) if sx else m.rel,
+                "a call evaluates to getattr(functions, name)(*args) with all arguments in order", "")
     ps = sorted((t for t in isx.sym.params.values() if t[:1] == ("param",)), key=lambda t: t[1])
     ok = len(ps) >= 3 and all(st.get(a_) == [ps[i]] for i, a_ in enumerate(("variables", "functions", "elements"))) and \
         [p_[2] for p_ in ps[:3]] == ["variables", "functions", "elements"]
-    col.add("C19.R6", "MadxEval.__init__#containers", ok, m.loc(init),
-            "the evaluator stores (variables, functions, elements) as given, in that parameter order", str([p_[2] for p_ in ps]))
+    with col.rule():
+        col.add("C19.R6", "MadxEval.__init__#containers", ok, m.loc(init),
+                "the evaluator stores (variables, functions, elements) as given, in that parameter order", str([p_[2] for p_ in ps]))
     # wiring in MadxEnv
     esx = sctx(repo, "MadxEnv", "__init__")
     fenv = {}
@@ -254,12 +264,23 @@ def check(col: Collector):
                 "the environment owns a fresh Manager", S.show(mgr))
     # dependency reporting of the node classes built by MAD-X expressions
     sub = Collector(repo, "C19", col.tier)
-    c05._readset(sub, rule="C19.R7")
-    c05._accumulator(sub, rule="C19.R7")
-    c05._never_none(sub, rule="C19.R7")
+    with col.rule():
+        c05._readset(sub, rule="C19.R7")
+    with col.rule():
+        c05._accumulator(sub, rule="C19.R7")
+    with col.rule():
+        c05._never_none(sub, rule="C19.R7")
     # ... and the operand algebra itself: operator dunders build the node Python prescribes on every path
-    c04._binary(sub, rule="C19.R8")
-    c04._unary(sub, rule="C19.R8")
+    with col.rule():
+        c04._binary(sub, rule="C19.R8")
+    with col.rule():
+        c04._unary(sub, rule="C19.R8")
     # element access `el->name` / variables are navigated with the name exactly as the grammar delivers it
-    c04.navigation_rules(sub, rule="C19.R9")
-    col.obs.extend(o for o in sub.obs if not o.note)
+    with col.rule():
+        c04.navigation_rules(sub, rule="C19.R9")
+    with col.rule():
+        col.obs.extend(o for o in sub.obs if not o.note)
+    from .common import shared
+    with col.rule():
+        shared(col, "C19.R10", [c04._zero_division, c04._calls],
+               why="apart from the documented division by zero, a deferred node raises what immediate evaluation raises")
